@@ -64,6 +64,7 @@ choice was made instead that the issuer is always the revocation authority.
 package revocation
 
 import (
+	"bytes"
 	"encoding/base64"
 	"encoding/binary"
 	"encoding/json"
@@ -574,15 +575,7 @@ func (hash Hash) String() string {
 }
 
 func (hash Hash) Equal(other Hash) bool {
-	for i := range hash {
-		if i == len(other) {
-			break
-		}
-		if hash[i] != other[i] {
-			return false
-		}
-	}
-	return true
+	return bytes.Equal(hash, other)
 }
 
 func (hash Hash) Algorithm() (uint64, error) {
